@@ -171,6 +171,18 @@ class G15:
             if rng.random() < 0.5:
                 return "log(%d, typeof %s);" % (t, slot)
             return "log(%d, typeof %s); %s = %s; log(%d, %s);" % (t, slot, slot, self.expr(vis), t, slot)
+        if rng.random() < 0.12:
+            # operators whose answer depends on more than the numeric value of the operands (sign of
+            # zero, exact integer or double): the same operands must give the same answer whatever
+            # other programs computed before
+            b = rng.choice((3, 5, 7, 11))
+            base = rng.choice(("%d", "(%d / 2)", "(%d.5 - 0.5)")) % (b if rng.random() < 0.5 else 2 * b)
+            if "/ 2" in base:
+                base = "(%d / 2)" % (2 * b)
+            e = rng.choice((19, 20, 21, 23))
+            z = rng.choice(("0", "-0", "(0 * -1)", "(1 - 1)"))
+            return ("log(%d, String((%s ** %d) %% 9973) + '|' + String(1 / (%s ** 3)) + '|' + String(%s * %d %% 7) + '|' + String(1 / (%s * 5)));"
+                    % (t, base, e, z, base, e, z))
         if self.known and rng.random() < 0.3:
             # a closure looks at some function name (declared later here, in an enclosing function,
             # or not in scope at all: typeof is safe either way)
